@@ -54,7 +54,9 @@ func ParseArchitectures(arch string) ([]Arch, error) {
 }
 
 func (arch *Arch) UnmarshalControl(data string) error {
-	return parseArchInto(arch, data)
+	/* A folded field ("Architecture:\n linux-any") arrives with the newline
+	 * the reader puts behind a continuation line. */
+	return parseArchInto(arch, strings.Trim(data, " \t\r\n"))
 }
 
 func ParseArch(arch string) (*Arch, error) {
